@@ -25,7 +25,7 @@ Alpha == <<
   F.truthL, F.truthR, F.truthSep, F.budL, F.budSep,
   F.prefix["Placeholder"], F.prefix["VariableIndependent"], F.prefix["VariableQuery"], F.prefix["Interval"], F.prefix["Operator"],
   <<"a">>, <<"b", "1">>, <<"1">>, <<"0", ".", "5">>, <<"1", ".", "5">>, <<"-", "1">>, <<".">>,
-  Chars("99999999999999999999"), <<" ">>,
+  Chars("99999999999999999999"), <<" ">>, Chars(" in "), Chars(" @ 3 in \""),
   <<"²">>, <<"٣">>, <<"½">>, Chars("1.0000000000000002"), Chars("1.0000000000000001"), Chars("18446744073709551616"), Chars("0.0000001") >>
 \* a smaller alphabet for the longest strings
 Core == {i \in 1..Len(Alpha) : Alpha[i] \in {F.seL, F.seR, F.compL, F.compR, F.stL, F.stR, F.sep, F.conn["Conjunction"], F.conn["ImageExtension"],
